@@ -378,48 +378,13 @@ class FmtStr:
         the original FmtStr at start and end.
         If end is provided, new_str will replace the substring self.s[start:end-1].
         """
-        if len(new_str) == 0 and (end is None or end <= start):
-            return self
-        new_fs = new_str if isinstance(new_str, FmtStr) else fmtstr(new_str)
-        assert len(new_fs.chunks) > 0, (new_fs.chunks, new_fs)
-        new_components = []
-        inserted = False
         if end is None:
             end = start
-        tail = None
-
-        for bfs, bfs_start, bfs_end in zip(
-            self.chunks, self.divides[:-1], self.divides[1:]
-        ):
-            if end == bfs_start == 0:
-                new_components.extend(new_fs.chunks)
-                new_components.append(bfs)
-                inserted = True
-
-            elif bfs_start <= start < bfs_end:
-                divide = start - bfs_start
-                head = Chunk(bfs.s[:divide], atts=bfs.atts)
-                tail = Chunk(bfs.s[end - bfs_start :], atts=bfs.atts)
-                new_components.extend([head] + new_fs.chunks)
-                inserted = True
-
-                if bfs_start < end < bfs_end:
-                    tail = Chunk(bfs.s[end - bfs_start :], atts=bfs.atts)
-                    new_components.append(tail)
-
-            elif bfs_start < end < bfs_end:
-                divide = start - bfs_start
-                tail = Chunk(bfs.s[end - bfs_start :], atts=bfs.atts)
-                new_components.append(tail)
-
-            elif bfs_start >= end or bfs_end <= start:
-                new_components.append(bfs)
-
-        if not inserted:
-            new_components.extend(new_fs.chunks)
-            inserted = True
-
-        return FmtStr(*(s for s in new_components if s.s))
+        if len(new_str) == 0 and end <= start:
+            return self
+        new_fs = new_str if isinstance(new_str, FmtStr) else fmtstr(new_str)
+        chunks = self[:start].chunks + new_fs.chunks + self[end:].chunks
+        return FmtStr(*(c for c in chunks if c.s))
 
     def append(self, string: Union[str, "FmtStr"]) -> "FmtStr":
         return self.splice(string, len(self.s))
